@@ -8,6 +8,7 @@ import (
 	"go/token"
 	"go/types"
 	"math/big"
+	"regexp"
 	"sort"
 	"strings"
 
@@ -243,8 +244,19 @@ func (e *Encoder) assumeCellWT(v Val) {
 	}
 }
 
+// entryRead: the term is syntactically a read of the function's ENTRY memory (M_<key>_0). Whatever such a cell
+// holds was stored before the function started, so a pointer or slice read from it refers to an object that
+// existed at entry - not to anything this function has allocated since.
+var entryReadRe = regexp.MustCompile(`^\(select (\(select )?M_[A-Za-z0-9_.]+_0 `)
+
+func entryRead(s string) bool { return entryReadRe.MatchString(s) }
+
 func (e *Encoder) assumeWT(v Val, pc string, st *State) {
-	if w := e.wellTyped(v, st.ctr); w != "true" {
+	ctr := st.ctr
+	if v.Tuple == nil && entryRead(v.S) {
+		ctr = "ctr0"
+	}
+	if w := e.wellTyped(v, ctr); w != "true" {
 		e.c.assume(implies(pc, w))
 	}
 }
